@@ -45,3 +45,26 @@ example : ∀ x y : Fin 2, ∑ a : Fin 2, (if a.val + x.val = 1 then (1 : ℤ) e
     = if x = y then 1 else 0 := by decide
 
 end QV.C01
+
+namespace QV.C01
+open QV Finset
+
+variable {α : Type} [CommRing α] [StarRing α] {n : Nat}
+
+/-- **a tensor that commutes with Hermitian conjugation does so in every basis**: real orthogonal eigenvector
+matrices (`S1 = SSᵀ`, real entries - what the package passes), every tensor, every dimension -/
+theorem transform_herm (S1 SS : Mat α n) (R : Tens α n) (hR : HermPres R)
+    (hreal : ∀ x y, star (SS x y) = SS x y) (hT : ∀ x y, S1 x y = SS y x) :
+    HermPres (transformTwoPass S1 SS R) := by
+  obtain rfl : S1 = fun x y => SS y x := funext fun x => funext fun y => hT x y
+  intro a b c d
+  have hR' : ∀ a b c d, star (R a b c d) = R b a d c := hR
+  simp only [transformTwoPass, sumFin_eq_sum, star_sum, star_mul', hreal, hR']
+  rw [Finset.sum_comm]
+  refine Finset.sum_congr rfl fun x _ => Finset.sum_congr rfl fun y _ => ?_
+  have inner : (∑ a', ∑ b', SS a' a * R b' a' x y * SS b' b) = ∑ a', ∑ b', SS a' b * R a' b' x y * SS b' a := by
+    rw [Finset.sum_comm]
+    exact Finset.sum_congr rfl fun _ _ => Finset.sum_congr rfl fun _ _ => by ring
+  rw [inner]; ring
+
+end QV.C01
